@@ -509,9 +509,9 @@ MODEL_RECIPES = ('shipped:default_a8w8_recipe.json',
 
 
 def oracle_model(e, out):
+  e.reach('carried')
   if out.raised is not None or out.params is None:
     return
-  e.reach('carried')
   for where, cond, what in oracles.carried_params(out.input_model, out.model,
                                                   out.params):
     e.check('C04.model.operator_sees_the_generated_parameters',
